@@ -21,6 +21,8 @@ class SgraphFromSelectorsTripleYielder(BaseTriplesYielder):
     def yield_triples(self):
         target_nodes = self._collect_every_target_node()
         sgraph = self._shape_map.get_sgraph()
+        if sgraph is None:  # empty shape map: no targets, no triples
+            return
         for a_triple in self._yield_relevant_sgraph_triples(target_nodes, sgraph):
             yield a_triple
 
